@@ -63,6 +63,16 @@ def entries(m):
             root = b
             # climb closures to the function that owns them
             client.append(root.id)
+    # the thread body a client entry runs in: closures (worker loops handed to thread::spawn) that call an entry — what they do with the
+    # client's bytes before and after the entry (reading the body, decoding a query string, building the reply) runs on the same thread
+    grew = True
+    while grew:
+        grew = False
+        for name in list(client):
+            for (b, bi) in P.callers().get(name, []):
+                if b.kind == 'closure' and b.id not in client and b.id != d.id:
+                    client.append(b.id)
+                    grew = True
     # transport callbacks that do not call process_request themselves but run on the same thread
     for b in P.user_bodies():
         if '::Handler>::on_' in b.id and '{closure' not in b.id and b.argc >= 1:
@@ -660,7 +670,9 @@ def _run(ck, m):
             return False
         srcs = C09.reply_sources(m, d, region)
         for kind, what in srcs:
-            if kind == 'guard' and G[what]['kind'] in ('safe', 'db', 'dbname'):
+            if kind == 'guard' and G[what]['kind'] in ('safe', 'db') and C09.guard_needs_selection(m, G[what]['kind']):
+                continue      # the guard hands on only on the Some edge of selected_db_name() (C09.b, re-evaluated here)
+            if kind == 'guard' and G[what]['kind'] == 'dbname':
                 continue
             if kind == 'error':
                 continue
